@@ -775,6 +775,13 @@ def _r8(ctx, pkg):
             from ..valueflow import loop_built_seq
             lb = loop_built_seq(fl, v[1])
             if lb is None:
+                # not "one entry per iteration".  ONE append that stands under a condition inside its loop is a filter written as a loop
+                apps = [a_ for a_ in fl.facts if a_.kind == "append" and a_.target == v[1]]
+                if len(apps) == 1 and len(apps[0].loops) == 1 and apps[0].guards[apps[0].loops[0].gdepth:]:
+                    g_ = apps[0].guards[apps[0].loops[0].gdepth:]
+                    ctx.bad("R8", "_assign_rates:one-statement-per-reaction", (TL, apps[0].line), "a statement is appended only under a condition (" +
+                            "; ".join(("" if p_ else "not ") + show(c_)[:50] for c_, p_ in g_[:2]) + "): the list no longer has one entry per reaction, while "
+                            "_prepare_ode_content overrides `rateeqns[idx]` by the reaction's POSITION", expected="one statement per reaction", found="conditional append")
                 continue        # (a list filled by a loop this rule does not read: R5 says what it thinks of it)
             v = lb[0].iter
         ev, op = _spine(v, lambda x: x[0] == "param" and x[1] in params)
@@ -1085,3 +1092,10 @@ def _stmt_records(index):
 
 BENIGN.append({"name": "assign-rates-statement-records", "edits": _stmt_records("ridx")})
 MUTANTS.append({"name": "assign-rates-statement-records-shifted-index", "edits": _stmt_records("ridx + 1"), "rules": ["R5"]})
+
+MUTANTS.append({"name": "assign-rates-loop-skips-zero-placeholders", "file": TLF, "old": _RA_OLD,
+                "new": '        rateassign = []\n        for ridx, (trange, rateexpr) in enumerate(zip(tranges, rateexprs)):\n            if rateexpr == "0.0":\n                continue\n'
+                       '            assign = f"{rate_sym}[{ridx}] = {rateexpr};"\n            rateassign.append(f"if ({trange}) {{\\n{assign}\\n}}" if trange else assign)\n\n        return rateassign\n', "rules": ["R8"]})
+BENIGN.append({"name": "assign-rates-loop-one-append-per-reaction", "file": TLF, "old": _RA_OLD,
+               "new": '        rateassign = []\n        for ridx, (trange, rateexpr) in enumerate(zip(tranges, rateexprs)):\n'
+                      '            assign = f"{rate_sym}[{ridx}] = {rateexpr};"\n            rateassign.append(f"if ({trange}) {{\\n{assign}\\n}}" if trange else assign)\n\n        return rateassign\n'})
